@@ -50,6 +50,7 @@ impl Arena {
         unsafe {
             assert_eq!(libc::mprotect(base as *mut libc::c_void, pg, libc::PROT_NONE), 0);
             assert_eq!(libc::mprotect(base.add(pg + body) as *mut libc::c_void, pg, libc::PROT_NONE), 0);
+            std::ptr::write_bytes(base.add(pg), b'A', body);
         }
         Arena { base, body, page: pg }
     }
@@ -63,9 +64,8 @@ impl Arena {
         assert!(data.len() <= self.body);
         unsafe {
             let body = self.base.add(self.page);
-            // slack bytes look like ordinary bases so that a stray read *inside* the body changes nothing either
-            // way (that direction is the other side's job)
-            std::ptr::write_bytes(body, b'A', self.body);
+            // slack bytes look like ordinary bases (filled once at creation, afterwards left-overs of earlier cases):
+            // a stray read *inside* the body finds plausible sequence text, which the value comparison notices
             let dst = match side {
                 Side::End => body.add(self.body - data.len()),
                 Side::Start => body,
